@@ -1170,6 +1170,9 @@ def run_c14(ctx):
         inv.append(ctx.case("directives", directive_heavy(rng, rng.randrange(2, 30)), gen.DEFAULT_CFG))
     for _ in range(ctx.n(100, 2000)):
         inv.append(ctx.case("bytes", gen.random_bytes_text(rng, rng.randrange(1, 60)), gen.DEFAULT_CFG))
+    # long chains and deep nestings of conditional blocks (dozens to a hundred passes): every branch's code is in a line
+    for kind, d, t in directive_ladders(rng, ctx.n([9, 33, 70, 100], [5, 17, 33, 63, 64, 65, 70, 100, 130])):
+        inv.append(ctx.case(kind, t, gen.DEFAULT_CFG, meta={"depth": d}))
     ctx.run_stream(inv, units=["passes", "kernel", "grammar", "linescover", "consolidators"])
     ctx.hypotheses["side conditions of C14_final_lines_cover: each pass consumed to its end; skip_token only skips compiler directives"] = "unit kernel on every case (valid and invalid): replays the hook's event log through the kernel model, compares with the real pass lines and the real final lines, evaluates both side conditions"
     ctx.hypotheses["parent and Eof-line clauses (well-formed input): grammar facts"] = "extracted predicates parents_ok / eof_line_ok on the real parse result"
